@@ -212,7 +212,7 @@ def census(ctx, chk, g, reach, label):
             if ent is None and s["kind"] == "call" and any(w_ in s["detail"] for w_ in ("with_capacity", "::reserve")) and capacity_safe(ctx, g.fns[k]):
                 chk.ok(R2, "%s:%s:auto-capacity" % (short(full), s["detail"][:40]))
                 continue
-            if ent is None and s["kind"] == "assert" and (s["detail"].startswith("Overflow(") or s["detail"] == "BoundsCheck") and range_safe(ctx, g.fns[k], s["detail"]):
+            if ent is None and s["kind"] == "assert" and (s["detail"].startswith("Overflow(") or s["detail"] in ("BoundsCheck", "DivisionByZero", "RemainderByZero")) and range_safe(ctx, g.fns[k], s["detail"]):
                 chk.ok(R2, "%s:%s:auto-range" % (short(full), s["detail"]))
                 continue
             if ent is None:
